@@ -57,7 +57,42 @@ def annotate_locals(tree):
     return T().visit(tree)
 
 
-TRANSFORMS = {"add_logging": add_logging, "annotate_locals": annotate_locals}
+def rename_self(tree):
+    """`self` -> `this` in every method (and `cls` -> `klass`)"""
+    class T(ast.NodeTransformer):
+        def visit_ClassDef(self, c):
+            for m in c.body:
+                if isinstance(m, ast.FunctionDef) and m.args.args and m.args.args[0].arg in ("self", "cls"):
+                    old = m.args.args[0].arg
+                    new = {"self": "this", "cls": "klass"}[old]
+                    if any(isinstance(x, ast.Name) and x.id == new for x in ast.walk(m)):
+                        continue
+                    for x in ast.walk(m):
+                        if isinstance(x, ast.Name) and x.id == old:
+                            x.id = new
+                        elif isinstance(x, ast.arg) and x.arg == old:
+                            x.arg = new
+            return c
+    return T().visit(tree)
+
+
+def flip_comparisons(tree):
+    """`a < b` -> `b > a`, `a <= b` -> `b >= a`, `a == b` -> `b == a`, `a != b` -> `b != a` for single comparisons whose operands are not None / not chained"""
+    FLIP = {ast.Lt: ast.Gt, ast.Gt: ast.Lt, ast.LtE: ast.GtE, ast.GtE: ast.LtE, ast.Eq: ast.Eq, ast.NotEq: ast.NotEq}
+    class T(ast.NodeTransformer):
+        def visit_Compare(self, n):
+            self.generic_visit(n)
+            if len(n.ops) == 1 and type(n.ops[0]) in FLIP:
+                l, r = n.left, n.comparators[0]
+                if any(isinstance(x, ast.Constant) and x.value is None for x in (l, r)):
+                    return n
+                # cvxpy constraint expressions (A @ x == 1) are objects, flipping is still an equivalent constraint
+                return ast.copy_location(ast.Compare(left=r, ops=[FLIP[type(n.ops[0])]()], comparators=[l]), n)
+            return n
+    return T().visit(tree)
+
+
+TRANSFORMS = {"add_logging": add_logging, "annotate_locals": annotate_locals, "rename_self": rename_self, "flip_comparisons": flip_comparisons}
 
 
 def transform_package(name, src, dst):
